@@ -25,6 +25,11 @@ pub struct GCase {
     pub model: RDoc,
     pub bookmarks: Vec<(String, (u32, u16), Option<usize>)>, // title, page, parent index
     pub start: u32,
+    /// added to Document::max_id before renumbering: the counter may lag behind objects inserted into `objects`
+    /// directly, or be ahead after the highest objects were removed
+    pub skew: i64,
+    /// renumber a second time with the same start value (numbers are then already consecutive from it)
+    pub twice: bool,
 }
 
 /// random reference graph with a page tree whose ids are not in page order
@@ -148,7 +153,9 @@ pub fn gen_case(r: &mut Rng) -> GCase {
         4 => cur / 2 + 1,
         _ => 1,
     };
-    GCase { model: d, bookmarks, start }
+    let skew = if r.chance(1, 3) { *r.pick(&[1i64, 7, -1, -3, 1000]) } else { 0 };
+    let twice = r.chance(1, 4);
+    GCase { model: d, bookmarks, start, skew, twice }
 }
 
 pub fn build(c: &GCase) -> Document {
@@ -295,24 +302,44 @@ fn check_inner(before: &Document, after: &Document, start: u32, use_default: boo
     None
 }
 
-pub fn run_case(c: &GCase) -> Vec<(String, String)> {
-    let before = build(c);
+/// renumber a copy and judge it; None when the call panicked
+fn renumber_checked(before: &Document, start: u32) -> (Option<Document>, Vec<(String, String)>) {
     let mut after = before.clone();
     let r = crate::props::catch(|| {
-        if c.start == 1 {
+        if start == 1 {
             after.renumber_objects();
         } else {
-            after.renumber_objects_with(c.start);
+            after.renumber_objects_with(start);
         }
     });
     if let Err(p) = r {
-        return vec![("panic".into(), format!("renumber_objects_with({}) panicked: {}", c.start, p))];
+        return (None, vec![("panic".into(), format!("renumber_objects_with({}) panicked: {}", start, p))]);
     }
-    check(&before, &after, c.start, c.start == 1)
+    let v = check(before, &after, start, start == 1);
+    (Some(after), v)
+}
+
+fn skewed(doc: &Document, skew: i64) -> Document {
+    let mut d = doc.clone();
+    d.max_id = (d.max_id as i64 + skew).clamp(0, u32::MAX as i64 - 2_000_000) as u32;
+    d
+}
+
+pub fn run_case(c: &GCase) -> Vec<(String, String)> {
+    let before = skewed(&build(c), c.skew);
+    let (after, mut out) = renumber_checked(&before, c.start);
+    if let (true, Some(after)) = (c.twice && out.iter().all(|(s, _)| s == "dangling-resolves"), after) {
+        // the numbers are now consecutive from the start value; the counter is put out of step again
+        let again = skewed(&after, c.skew);
+        let (_, v) = renumber_checked(&again, c.start);
+        out.extend(v.into_iter().map(|(s, w)| (if s == "dangling-resolves" { s } else { format!("second-pass/{}", s) }, w)));
+        out.dedup_by(|a, b| a.0 == b.0);
+    }
+    out
 }
 
 fn case_json(c: &GCase) -> Value {
-    json!({"kind":"graph","doc":rdoc_to_json(&c.model),"start":c.start,"bookmarks":c.bookmarks.iter().map(|(t,p,par)| json!({"title":t,"page":[p.0,p.1],"parent":par})).collect::<Vec<_>>()})
+    json!({"kind":"graph","doc":rdoc_to_json(&c.model),"start":c.start,"skew":c.skew,"twice":c.twice,"bookmarks":c.bookmarks.iter().map(|(t,p,par)| json!({"title":t,"page":[p.0,p.1],"parent":par})).collect::<Vec<_>>()})
 }
 
 pub fn run(cfg: &RunCfg) -> (PropMeta, ShardOut, Map<String, Value>) {
@@ -342,7 +369,7 @@ pub fn run(cfg: &RunCfg) -> (PropMeta, ShardOut, Map<String, Value>) {
     });
     let meta = PropMeta {
         level: "exploration",
-        rule: "random reference graphs: page trees (0..11 pages, one or two levels) whose page ids are shuffled against page order, sparse numbers, optional non-zero generations, extra objects of every kind with shared / cyclic / dangling / wrong-generation references, references from the trailer, unreachable objects, bookmarks (incl. zero-page) ; start in {1, 2, an existing number, mid-range, 1,000,000}. Oracle: dense numbering from start, max_id, lock-step renaming walk from the trailers (consistent, injective, equal referents, dangling stays dangling), page order, bookmark targets. distinct = distinct (document, start).".into(),
+        rule: "random reference graphs: page trees (0..11 pages, one or two levels) whose page ids are shuffled against page order, sparse numbers, optional non-zero generations, extra objects of every kind with shared / cyclic / dangling / wrong-generation references, references from the trailer, unreachable objects, bookmarks (incl. zero-page) ; start in {1, 2, an existing number, mid-range, 1,000,000}; Document::max_id out of step with the objects (behind or ahead) in one case in three; one case in four renumbered a second time with the same start. Oracle: dense numbering from start, max_id, lock-step renaming walk from the trailers (consistent, injective, equal referents, dangling stays dangling), page order, bookmark targets. distinct = distinct (document, start).".into(),
         assumptions: vec!["one generation per object number; only objects reachable from the trailer are compared (the statement's scope)".into()],
         exhaustive: false,
         min_distinct: 1000,
@@ -358,7 +385,9 @@ pub fn replay(w: &Value) -> Vec<Finding> {
         .and_then(|a| a.as_array())
         .map(|a| a.iter().map(|b| (b["title"].as_str().unwrap_or("").to_string(), (b["page"][0].as_u64().unwrap_or(0) as u32, b["page"][1].as_u64().unwrap_or(0) as u16), b["parent"].as_u64().map(|x| x as usize))).collect())
         .unwrap_or_default();
-    let c = GCase { model, bookmarks, start };
+    let skew = w.get("skew").and_then(|x| x.as_i64()).unwrap_or(0);
+    let twice = w.get("twice").and_then(|x| x.as_bool()).unwrap_or(false);
+    let c = GCase { model, bookmarks, start, skew, twice };
     run_case(&c).into_iter().map(|(s, what)| Finding { signature: format!("C10/{}", s), what, witness: w.clone() }).collect()
 }
 
